@@ -182,3 +182,34 @@ def run(ctx):
             del T2
 
     drive.for_each_case(ctx, 'pairs', max(20, ctx.budget // 4), body_pairs, gen=lambda c, r: Ty('int'))
+
+    # a derived field (init=False, filled by __post_init__, left out of the data) standing BEFORE an ordinary field of another
+    # type, in a class read and written positionally: instances are fixed points alone, nested, and as constructor arguments
+    def body_derived(i, rng, ty_unused, T_unused):
+        later = rng.choice(((str, 'lbl', 'other'), (fractions.Fraction, fractions.Fraction(1, 3), fractions.Fraction(2)), (t.List[int], [1, 2], [])))
+        ns = {'__annotations__': {'lo': int, 'width': int, 'label': later[0], 'n': float}, '__module__': __name__,
+              'width': env.pfield(init=False, exclude=True), 'n': 1.5,
+              '__post_init__': lambda self: object.__setattr__(self, 'width', self.lo * 2)}
+        out_format = rng.choice(('tuple', 'tuple', 'struct'))
+        Span = type(f"KDer{next(_serial)}", (env.PaneBase,), ns, in_format=('tuple', 'struct'), out_format=out_format)
+        Track = type(f"KTrk{next(_serial)}", (env.PaneBase,), {'__annotations__': {'spans': t.List[Span], 'best': t.Optional[Span]}, 'best': None, '__module__': __name__})
+        a, b = Span(1, later[1]), Span(2, later[2], 2.5)
+        targets = [(Span, a), (t.List[Span], [a, b]), (t.Dict[str, Span], {'k': b}), (t.Tuple[Span, str], (a, 's')), (t.Optional[Span], b),
+                   (collections.deque[Span] if hasattr(collections.deque, '__class_getitem__') else t.Deque[Span], collections.deque([a]))]
+        for TT, x in targets:
+            ctx.count('derived_field_fixed_points')
+            ctx.case(('derived', str(TT)[:40], out_format), nontrivial=True)
+            y = observe(env.convert, x, TT)
+            if y.kind != 'value' or not (y.val == x) or type(y.val) is not type(x):
+                ctx.violation('typed-value-is-fixed-point', 'derived', i, {'type': short(TT, 200), 'typed': short(x, 200), 'out_format': out_format, 'convert': y.brief()},
+                              mech='derived-field-before-positional-field')
+                return
+        c = observe(Track, [a, b], b)
+        if c.kind != 'value' or c.val.spans != [a, b] or c.val.best != b:
+            ctx.violation('ctor-accepts-typed-arguments', 'derived', i, {'class': 'Track(spans: List[Span], best: Optional[Span])', 'args': short([[a, b], b], 200),
+                                                                          'out_format': out_format, 'constructor': c.brief()}, mech='derived-field-before-positional-field')
+
+    import collections
+    import fractions
+    from ..tyast import _serial
+    drive.for_each_case(ctx, 'derived', max(20, ctx.budget // 20), body_derived, gen=lambda c, r: Ty('int'))
